@@ -109,12 +109,20 @@ def run(ctx):
   if not f_clear:
     ctx.hold('C20.complete', con, 'clear_constants=False: the constant table is left untouched', cc.loc(), instance='_CONSTANTS:keep')
   else:
-    loops = [n for n in g2.live_nodes() if n.kind == 'for' and ('c', p0, False) in facts[n.id] and u(n.ast.iter).endswith('.items()')]
+    loops = [n for n in g2.live_nodes() if n.kind == 'for' and ('c', p0, False) in facts[n.id]]
     ok = False
+    # a snapshot of all (name, value) pairs of the table, in either spelling
+    pair_snapshots = ('list(_CONSTANTS.items())', 'tuple(_CONSTANTS.items())', 'sorted(_CONSTANTS.items())')
     for lp in loops:
-      src = u(lp.ast.iter)[:-len('.items()')]
+      it = u(lp.ast.iter)
+      if it.endswith('.items()') and isinstance(lp.ast.target, ast.Tuple) and len(lp.ast.target.elts) == 2:
+        src, forms = it[:-len('.items()')], ('_CONSTANTS.copy()', 'dict(_CONSTANTS)', 'dict(_CONSTANTS.items())')
+      elif isinstance(lp.ast.iter, ast.Name) and isinstance(lp.ast.target, ast.Tuple) and len(lp.ast.target.elts) == 2:
+        src, forms = it, pair_snapshots
+      else:
+        continue
       saved = [n for n in g2.live_nodes() if n.kind == 'stmt' and isinstance(n.ast, ast.Assign)
-               and u(n.ast.targets[0]) == src and u(n.ast.value) == '_CONSTANTS.copy()']
+               and u(n.ast.targets[0]) == src and u(n.ast.value) in forms]
       reins = [c for c in walk_local(lp.ast) if isinstance(c, ast.Call) and prog.resolve_call(cc, c) == 'config.constant'] + \
               [s for s in walk_local(lp.ast) if isinstance(s, ast.Assign) and u(s.targets[0]).startswith('_CONSTANTS[')]
       if saved and reins and all(g2.reaches(s.id, c.id) for s in saved for c in f_clear) and all(g2.reaches(c.id, lp.id) for c in f_clear):
